@@ -205,6 +205,7 @@ type c18Env struct {
 	hitsBefore   int
 	hitsAfter    int
 	restartOnDup bool
+	forceFail    int // next beforePublish hits fail unconditionally (still <= 2 per event)
 	wantRestart  bool
 	known        map[uint64]c18Entry
 	heard        int
@@ -229,7 +230,7 @@ type c18Env struct {
 func c18NewEnv(rep *kit.Report, unit string, run int, seed uint64) *c18Env {
 	rng := kit.NewRNG(seed)
 	e := &c18Env{rep: rep, unit: unit, run: run, seed: seed, rng: rng, frng: rng.Fork(0xF),
-		prefix: fmt.Sprintf("c18%s%dx", unit[:1], run), perEvent: map[uint64]int{}, known: map[uint64]c18Entry{},
+		prefix: fmt.Sprintf("c18%s%dx", unit[:2], run), perEvent: map[uint64]int{}, known: map[uint64]c18Entry{},
 		streams: map[string]*c18Stream{}, groups: map[string]map[string]bool{}}
 	return e
 }
@@ -274,6 +275,9 @@ func (e *c18Env) mut(extra func(*Config)) func(*Config) {
 		cfg.Clustering.ServerID = e.prefix + cfg.Clustering.ServerID
 		cfg.ActivityStream.Enabled = true
 		cfg.ActivityStream.PublishTimeout = 2 * time.Second
+		if os.Getenv("C18_DEBUG") != "" {
+			cfg.LogSilent = false
+		}
 		if extra != nil {
 			extra(cfg)
 		}
@@ -297,6 +301,13 @@ func (e *c18Env) installHooks(failBudget, dupBudget, failPct, dupPct int, restar
 		e.mu.Lock()
 		defer e.mu.Unlock()
 		e.hitsBefore++
+		if e.faultsOn && e.forceFail > 0 && e.perEvent[id] < 2 {
+			e.forceFail--
+			e.perEvent[id]++
+			e.nFail++
+			e.tracef("hook beforePublish server=%s id=%d -> INJECT publish failure (forced)", sid, id)
+			return errors.New("c18: injected publish failure")
+		}
 		if e.faultsOn && e.failLeft > 0 && e.perEvent[id] < 2 && e.frng.Intn(100) < e.failPct {
 			e.failLeft--
 			e.perEvent[id]++
@@ -905,6 +916,15 @@ func (e *c18Env) finish(fenceName string) {
 		if arrived || time.Now().After(deadline) {
 			break
 		}
+		if what := e.stuckActivityPartition(); what != "" {
+			// a state that no later step of the server leaves: decided now
+			// instead of waiting for the watchdog
+			e.absorbAll()
+			ops, _, _ := e.listedOps()
+			e.fail("C18:"+e.unit+":stuck:activity-partition-not-started-after-snapshot-restore",
+				fmt.Sprintf("committed operations up to the fence #%d can never be listed: %s", fenceIdx, what), events, ops)
+			return
+		}
 		time.Sleep(40 * time.Millisecond)
 	}
 	e.absorbAll()
@@ -966,6 +986,40 @@ func (e *c18Env) finish(fenceName string) {
 		if strings.Contains(o.Canon, "stream=\"__") {
 			e.rep.Count("ops_on_internal_streams", 1)
 		}
+	}
+}
+
+// stuckActivityPartition is the precise stuck-state predicate used instead of
+// the watchdog: the controller has applied operations since its start (the
+// fence was accepted through its API, so the FSM's recovery decision is made
+// and finishedRecovery will not run any more), yet the __activity partition it
+// leads still carries the "recovered, not started yet" mark and is not paused.
+// Nothing but another restart starts such a partition, so publishes to it time
+// out forever.
+func (e *c18Env) stuckActivityPartition() string {
+	srv := e.c.metaLeaderNow()
+	if srv == nil {
+		return ""
+	}
+	p := srv.metadata.GetPartition(c18ActivityStream, 0)
+	if p == nil {
+		return ""
+	}
+	p.mu.RLock()
+	rec, paused, leader := p.recovered, p.paused, p.Leader
+	leading := p.isLeading
+	p.mu.RUnlock()
+	if rec && !paused && !leading && leader == srv.config.Clustering.ServerID {
+		return fmt.Sprintf("server %s is metadata leader and leader of %s/0 and has applied new operations, but the partition restored from the Raft snapshot is still marked recovered=true and was never started (finishedRecovery is only run at the end of a log replay, and no FSM entry followed the snapshot); activity publishes time out",
+			srv.config.Clustering.ServerID, c18ActivityStream)
+	}
+	return ""
+}
+
+// c18Stage records how far a child-process scenario got (no-op in-process).
+func c18Stage(stage string) {
+	if f := os.Getenv("C18_STAGE_FILE"); f != "" {
+		os.WriteFile(f, []byte(stage), 0644)
 	}
 }
 
